@@ -315,6 +315,29 @@ def corrupt(t, wire, fields, weights, truncate_body_bias=True):
     return wire, descs
 
 
+_CL_LINE = re.compile(rb"^(content-length:[ \t]*)([0-9]+)([ \t]*\r?)$", re.I | re.M)
+
+
+def reframe(wire):
+    """Corruption at the source: the sender computes Content-Length from the bytes it actually sends.
+
+    Returns the wire with its (single, still numeric) Content-Length replaced by the real body length, or
+    None when there is no such header line / no complete head or when nothing would change.
+    """
+    m = _BLANK.search(wire)
+    if m is None:
+        return None
+    head = wire[:m.start() + 1]
+    found = _CL_LINE.findall(head)
+    if len(found) != 1:
+        return None
+    n = len(wire) - m.end()
+    new = _CL_LINE.sub(lambda mm: mm.group(1) + str(n).encode("ascii") + mm.group(3), head)
+    if new == head:
+        return None
+    return new + wire[m.start() + 1:]
+
+
 def payload_name(idx):
     v = DICTIONARY[idx]
     if v is DIGITS:
